@@ -299,6 +299,9 @@ def semlock_forgets_ownership_in_a_forked_child(ctx, rule):
 
 def run(ctx):
     semlock_forgets_ownership_in_a_forked_child(ctx, 'R17.6')
+    # Lock / Semaphore / BoundedSemaphore / Condition hand kind, value and bound on to SemLock unchanged
+    from .generic import ctor_forwards_params
+    ctor_forwards_params(ctx, 'R17.7', ['synchronize'], floor=4)
     r17_1(ctx)
     r17_2(ctx)
     r17_3(ctx)
@@ -311,6 +314,8 @@ def run(ctx):
 
 _Y = 'billiard/synchronize.py'
 MUTANTS = [
+    ('semaphore-ignores-its-initial-value', 'billiard/synchronize.py', "        SemLock.__init__(self, SEMAPHORE, value, SEM_VALUE_MAX, ctx=ctx)", "        SemLock.__init__(self, SEMAPHORE, 1, SEM_VALUE_MAX, ctx=ctx)", 'R17.7'),
+    ('bounded-semaphore-bound-not-its-value', 'billiard/synchronize.py', "        SemLock.__init__(self, SEMAPHORE, value, value, ctx=ctx)", "        SemLock.__init__(self, SEMAPHORE, value, SEM_VALUE_MAX, ctx=ctx)", 'R17.1'),
     ('after-fork-hook-only-for-named-semaphores', 'billiard/synchronize.py',
      "            if sys.platform != 'win32':\n                def _after_fork(obj):\n                    obj._semlock._after_fork()\n                util.register_after_fork(self, _after_fork)\n\n            if _semname(self._semlock) is not None:\n",
      "            if _semname(self._semlock) is not None:\n                def _after_fork(obj):\n                    obj._semlock._after_fork()\n                util.register_after_fork(self, _after_fork)\n", 'R17.6'),
